@@ -125,6 +125,21 @@ def check(run):
             one_case(run, specs_far, gamma, np.vstack([pts, npos[:1]]) + sh, npos + sh, Z, 0.0, t, "far-from-origin")
             one_case(run, specs_far, gamma, pts + sh, npos + sh, Z, dsel * (1 + 2.0 ** -30), t, "far-from-origin-threshold")
         size_case(run, specs, t)
+    # every combination of coordinate types x generalized shells, without transformation (the branch that checks the size of the
+    # density matrix itself): all-Cartesian, all-spherical and both mixed orders, each shell with 2-3 segmented contractions
+    import itertools
+    for ta, tb in itertools.product([False, True], repeat=2):
+        cs = []
+        specs = [rand_shell(rng, rng.randint(0, 2), cs, nprim=2, nseg=2 + (ta != tb), sph=ta, exp_hi=20.0),
+                 rand_shell(rng, rng.randint(1, 2), cs, nprim=rng.randint(1, 2), nseg=rng.randint(2, 3), sph=tb, exp_hi=20.0)]
+        n = sum(s_.size for s_ in specs)
+        gamma = random_symmetric(rng, n, psd=False)
+        npos = np.array([[core.snap(rng.uniform(-2, 2), 10) for _ in range(3)] for _ in range(2)])
+        Z = np.array([1.0, core.snap(rng.uniform(1, 30), 8)])
+        pts = np.array([[core.snap(rng.uniform(-3, 3), 10) for _ in range(3)] for _ in range(3)])
+        one_case(run, specs, gamma, pts, npos, Z, 0.0, None, "types-%s-%s" % ("sph" if ta else "cart", "sph" if tb else "cart"))
+        size_case(run, specs, None)
+        run.count("coordinate types " + ("mixed" if ta != tb else ("spherical" if ta else "cartesian")) + " generalized")
     # the witnesses of the repaired defects
     s = ShellSpec(0, [0, 0, 0], [1.0], [1.0])
     one_case(run, [s], np.array([[1.0]]), np.array([[0.0, 0.0, 1.5]]), np.array([[0.0, 0.0, 0.0]]), np.array([2.0]), 1.0, None, "Z=2,d=1.5,t=1")
